@@ -243,6 +243,8 @@ struct Engine {
     cur_span: Option<usize>,
     check_bypass: bool,
     // ---- reader
+    /// (st_dev, st_ino) of the file the reader under exploration opens
+    rfile: Option<(u64, u64)>,
     rmap: Option<(usize, usize)>,
     rtv: TView,
     end: u32,
@@ -276,6 +278,7 @@ impl Engine {
             cur_inc: 0,
             cur_span: None,
             check_bypass: true,
+            rfile: None,
             rmap: None,
             rtv: TView::new([0; MAXLOC]),
             end: 0,
@@ -697,6 +700,31 @@ impl Engine {
         None
     }
 
+    /// A read(2)/pread(2) of the segment file by the reader: the header bytes keep the content the file
+    /// had at the attach position (the attach position *is* the moment the header is read); record bytes
+    /// are loads of the simulated memory, one relaxed load per chunk, with the same read-from choices as a
+    /// copy through the mapping (the daemon may be anywhere in its trace by the time the kernel copies).
+    fn on_file_read(&mut self, off: usize, dst: *mut u8, n: usize) {
+        let (lo0, hi0) = (off.max(HDR), (off + n).min(HDR + REC_SIZE));
+        if lo0 >= hi0 {
+            return;
+        }
+        let (roff, rend) = (lo0 - HDR, hi0 - HDR);
+        let chunks = self.trace.chunks.clone();
+        for (ci, (co, cl)) in chunks.iter().enumerate() {
+            let (lo, hi) = ((*co).max(roff), (co + cl).min(rend));
+            if lo >= hi {
+                continue;
+            }
+            if self.trace.mem.count_at(LOC_DATA + ci, self.end) == 0 {
+                continue;
+            }
+            let v = self.reader_load(LOC_DATA + ci, Ord::Relaxed);
+            // SAFETY: dst is valid for n bytes starting at file offset off
+            unsafe { std::ptr::copy_nonoverlapping(v[lo - co..].as_ptr(), dst.add(HDR + lo - off), hi - lo) };
+        }
+    }
+
     fn on_fence(&mut self, ord: Ord) {
         match self.role {
             Role::Writer => {
@@ -812,6 +840,25 @@ fn h_data_read(src: usize, dst: *mut u8, len: usize) {
         std::panic::resume_unwind(Box::new(CutSentinel(reason)));
     }
 }
+fn h_file_read(fd: i32, off: i64, buf: *mut u8, n: usize) {
+    let want = match E.try_with(|e| e.try_borrow().ok().and_then(|e| if e.role == Role::Reader { e.rfile } else { None })) {
+        Ok(Some(w)) => w,
+        _ => return,
+    };
+    // SAFETY: fstat on a caller-supplied descriptor into a zeroed buffer
+    let st = unsafe {
+        let mut st: libc::stat = std::mem::zeroed();
+        if libc::fstat(fd, &mut st) != 0 {
+            return;
+        }
+        st
+    };
+    if (st.st_dev as u64, st.st_ino as u64) != want {
+        return;
+    }
+    with(|e| e.on_file_read(off as usize, buf, n));
+}
+
 fn h_point(name: &'static str) {
     let crash = with(|e| e.on_point(name));
     if crash {
@@ -834,6 +881,7 @@ static HOOKS: Hooks = Hooks { load: h_load, store: h_store, rmw: h_rmw, fence: h
 pub fn install() {
     raise_fd_limit();
     verif::install(&HOOKS);
+    crate::common::iofault::set_file_read_hook(h_file_read);
 }
 
 // ---------------------------------------------------------------------------------------------
@@ -1196,6 +1244,11 @@ struct ReaderRun {
     reader: ShmReader,
 }
 
+fn file_id(p: &Path) -> Option<(u64, u64)> {
+    use std::os::unix::fs::MetadataExt;
+    std::fs::metadata(p).ok().map(|m| (m.dev(), m.ino()))
+}
+
 fn reset_reader(trace: &Trace, cfg: &ExploreCfg, attach: u32) {
     with(|e| {
         e.role = Role::Reader;
@@ -1269,9 +1322,11 @@ pub fn explore_reader(
         std::fs::write(&rpath, s).map_err(|e| e.to_string())?;
     }
     let file_valid = snap.as_ref().map(|s| reference_valid(s)).unwrap_or(false);
+    let rfile = file_id(&rpath);
     with(|e| {
         e.trace = trace.clone();
         e.failure = None;
+        e.rfile = rfile;
     });
     stats.attach_points += 1;
     // The attach itself (ShmReader::new) is explored like a call: it normally performs no intercepted
@@ -1423,9 +1478,11 @@ pub fn replay_path(trace: &Trace, cfg: &ExploreCfg, attach: u32, path: &[Vec<u32
     if let Some(s) = trace.snap_at(attach) {
         std::fs::write(&rpath, s).map_err(|e| e.to_string())?;
     }
+    let rfile = file_id(&rpath);
     with(|e| {
         e.trace = trace.clone();
         e.failure = None;
+        e.rfile = rfile;
     });
     reset_reader(trace, cfg, attach);
     with(|e| e.begin_call(path.first().cloned().unwrap_or_default()));
